@@ -25,6 +25,7 @@ typedef struct regexp {
 extern int regnarrate;
 extern int regexp_user;
 extern char *regexp_error;
+extern int regexp_too_deep;	/* set by regexec() when it gave the match up, see regmatch() */
 
 void regdump(regexp *);
 regexp *regcomp(unsigned char *, int);
